@@ -399,6 +399,7 @@ func runCheck(prop, tier string, seed int) int {
 
 	// collect
 	var problems []string
+	var unreachable []string // returns unreachable under the assumed contracts (soft covers)
 	nObl, nDis := 0, 0
 	bySolver := map[string]int{}
 	solverTime := 0.0
@@ -465,6 +466,12 @@ func runCheck(prop, tier string, seed int) int {
 			solverTime += o.Time
 			if o.O.Cover {
 				covers++
+				if o.O.Soft {
+					if o.Status == "cover-failed" && !anyFailed {
+						unreachable = append(unreachable, fmt.Sprintf("%s (%s:%d)", stableName(o.O.Name()), strings.TrimPrefix(o.O.Pos.Filename, "/repo/"), o.O.Pos.Line))
+					}
+					continue
+				}
 				if o.Status == "cover-failed" && !anyFailed {
 					problems = append(problems, fmt.Sprintf("%s: vacuity guard failed: %s (contradictory assumptions)", r.name, o.O.Name()))
 				}
@@ -593,6 +600,7 @@ func runCheck(prop, tier string, seed int) int {
 		"by_solver":                bySolver,
 		"solver_time_s":            round3(solverTime),
 		"vacuity_covers_checked":   covers,
+		"returns_unreachable_under_contracts": unreachable,
 		"write_sites_examined":     frameSites,
 		"undecided":                len(undecided),
 		"failed":                   len(violations),
@@ -638,6 +646,9 @@ func runCheck(prop, tier string, seed int) int {
 		"assumptions": assumptions,
 		"wall_s":      round3(time.Since(t0).Seconds()),
 		"violations":  nviol,
+	}
+	if len(unreachable) > 0 {
+		notes = append(notes, fmt.Sprintf("%d return statement(s) are unreachable under the preconditions and assumed contracts (dead defensive code, or a contradictory assumed contract); their postconditions hold vacuously; listed in evidence coverage.returns_unreachable_under_contracts", len(unreachable)))
 	}
 	for _, n := range dedupe(notes) {
 		fmt.Printf("NOTE property=%s %s\n", prop, n)
@@ -751,6 +762,13 @@ func runCorpus(dir, prop string) []corpusResult {
 				}
 			}
 		}
+	}
+	// engine canaries (engine_<property>_<what>.patch): mutations an earlier
+	// engine version proved vacuously
+	engines, _ := filepath.Glob(filepath.Join(dir, "selftest", "mutants", "engine_"+prop+"_*.patch"))
+	sort.Strings(engines)
+	for _, f := range engines {
+		cases = append(cases, cse{strings.TrimSuffix(filepath.Base(f), ".patch"), f})
 	}
 	seeds, _ := filepath.Glob(filepath.Join(dir, "seeded", "*", "meta.json"))
 	sort.Strings(seeds)
